@@ -89,6 +89,12 @@ CHECKS["C08"] = dict(
     text="~3,800 cases per quick run: ~900 error-free sources compiled end to end (generated, corpus, ownership programs and their accepted mutants) and ~1,800 injected twins over 10 injection kinds (by-value, let, snapshot, ref, member, partial-move, in-loop moves; consumption removed; never consumed).",
     note="Trusted: my generator's model of the move rules (monitored: a valid twin the compiler rejects is counted and bounded by the health check at 10%). The legacy non-linear gas solver is not part of the pipeline checked here (it is not an optimisation configuration and documents unsupported libfuncs).")
 
+CHECKS["C13"] = dict(
+    level="exploration", design="DESIGN.md 3/C13",
+    technique="stateful (model-based) property-based testing: generated edit histories applied to one RootDatabase through override_file_content with interleaved queries; after steps, diagnostics (with locations) and Sierra are compared with a fresh database given the same contents; histories shrink as one value and are then delta-debugged step-wise",
+    text="128 histories (quick) of 4-30 edits over a two-file project: trivia shifts, renames in one or both files, statement / item insertion, duplication, deletion and moves, syntax-breaking edits and repairs, override unset / set, no-op rewrites, literal changes; ~750 check points per quick run, about a third on error-free contents (Sierra compared) and two thirds on erroneous contents (diagnostics with line/column compared).",
+    note="Trusted: a fresh RootDatabase as the reference. The project is rooted at a non-existent directory; all contents arrive through file overrides (the language-server path), so on-disk change detection is not exercised.")
+
 PENDING_REASON = "check not built yet in this session (planned in DESIGN.md section 3; the property itself is amenable to the technique)"
 
 def main():
